@@ -8,6 +8,7 @@ name are asked by an observer.  Oracle: harness.ref_names, compared step by step
 """
 import itertools
 import random
+import zlib
 
 from harness import busnet, ref_message as RM, ref_names as RN
 
@@ -20,7 +21,8 @@ NO_OWNER = 'org.freedesktop.DBus.Error.NameHasNoOwner'
 
 
 class World:
-    def __init__(self, nclients):
+    def __init__(self, nclients, hello_less=False):
+        self.hello_less = hello_less
         self.net = busnet.Net()
         self.observer = self.net.raw_client()
         self.clients = {}
@@ -33,7 +35,15 @@ class World:
     def connect(self):
         cid = self.next_id
         self.next_id += 1
-        c = self.net.raw_client()
+        if self.hello_less and cid % 2 == 1:
+            # a client that never says Hello: the bus serves its calls all the same (it is registered, and named, on its
+            # first message), so it can own and wait for names like any other and must be cleaned up like any other
+            c = self.net.raw_client(hello=False)
+            s_ = c.call('GetId')
+            rep = [m for m in c.take() if m.fields.get('reply_serial') == s_]
+            c.unique = (rep[0].fields.get('destination') if rep else None) or c.proto.uniqueName
+        else:
+            c = self.net.raw_client()
         self.clients[cid] = c
         self.alive.add(cid)
         return cid
@@ -53,7 +63,10 @@ def signals_of(client):
 
 def run_history(ctx, nclients, ops, names, case):
     """ops: ('req', cid, name idx, flags) | ('rel', cid, name idx) | ('disc', cid) | ('conn',)."""
-    w_ = World(nclients)
+    hello_less = zlib.crc32(repr(ops).encode()) % 3 == 0
+    if hello_less:
+        ctx.count('histories_with_hello_less_clients')
+    w_ = World(nclients, hello_less)
     model = w_.model
     hist = []
     ctx.count('evaluations')
